@@ -384,23 +384,23 @@ Lemma walk_stmt_eq P glob s c :
       let rs := map (fun b => walk_block P b c) brs in
       finish P glob c o (CIf (declared c) (map (fun r => new_decls c (w_ctx r)) rs))
              (forallb w_ok rs)
-             (fun ps => NIf (map (fun r => map (rw_if ps) (w_nodes r)) rs))
+             (fun ps => NIf (map (fun r => map (rw_if ps) (drop_h ps (w_nodes r))) rs))
   | STry o brs =>
       let rs := map (fun b => walk_block P b c) brs in
       finish P glob c o (CIf (declared c) (map (fun r => new_decls c (w_ctx r)) rs))
              (forallb w_ok rs)
-             (fun ps => NTry (map (fun r => map (rw_all ps) (w_nodes r)) rs))
+             (fun ps => NTry (map (fun r => map (rw_all ps) (drop_h ps (w_nodes r))) rs))
   | SWhile o body =>
       let r := walk_block P body c in
       finish P glob c o (CLoop (flat_map decl_names (w_nodes r)) (new_decls c (w_ctx r)))
              (w_ok r)
-             (fun ps => NWhile (map (rw_all ps) (w_nodes r)))
+             (fun ps => NWhile (map (rw_all ps) (drop_h ps (w_nodes r))))
   | SFor o v body =>
       let cv := mk_pctx (declared c ++ [v]) ((v, 0) :: types c) in
       let r := walk_block P body cv in
       finish P glob c o (CLoop (flat_map decl_names (w_nodes r)) (new_decls cv (w_ctx r)))
              (w_ok r)
-             (fun ps => NFor v (map (rw_all ps) (w_nodes r)))
+             (fun ps => NFor v (map (rw_all ps) (drop_h ps (w_nodes r))))
   end.
 Proof. destruct s; reflexivity. Qed.
 
@@ -457,6 +457,20 @@ Section Agree.
     w_ok (walk_block P1 l c) = true -> walk_block P1 l c = walk_block P2 l c.
   Proof. apply walk_block_agree. apply Forall_forall. intros s _. apply walk_stmt_agree. Qed.
 
+  Lemma walk_stmt_main_agree s c :
+    w_ok (walk_stmt_main P1 s c) = true -> walk_stmt_main P1 s c = walk_stmt_main P2 s c.
+  Proof.
+    destruct s; cbn [walk_stmt_main]; try (apply walk_stmt_agree).
+    destruct (tmem x (declared c)); [apply walk_stmt_agree|reflexivity].
+  Qed.
+
+  Lemma walk_main_agree l : forall c, w_ok (walk_main P1 l c) = true -> walk_main P1 l c = walk_main P2 l c.
+  Proof.
+    induction l as [|s r IH]; intros c Hok; [reflexivity|].
+    cbn [walk_main] in *. cbn [w_ok] in Hok. apply andb_true_iff in Hok as [H1 H2].
+    rewrite <- (walk_stmt_main_agree s c H1), <- (IH _ H2). reflexivity.
+  Qed.
+
   Lemma walk_item_agree st it :
     o_ok (p_out (walk_item P1 st it)) = true -> walk_item P1 st it = walk_item P2 st it.
   Proof.
@@ -464,7 +478,7 @@ Section Agree.
       apply andb_true_iff in Hok as [_ Hr].
     - rewrite <- (walk_stmt_agree s true _ Hr). reflexivity.
     - rewrite <- (walk_block_agree' body _ Hr). reflexivity.
-    - rewrite <- (walk_block_agree' body _ Hr). reflexivity.
+    - rewrite <- (walk_main_agree body _ Hr). reflexivity.
   Qed.
 
   Lemma walk_item_ok_mono P st it : o_ok (p_out (walk_item P st it)) = true -> o_ok (p_out st) = true.
@@ -663,7 +677,7 @@ Proof. intros H. vm_compute in H. discriminate H. Qed.
 
 (* ================================================================ non-vacuity of the guarded theorem *)
 (* cnd = 1 / if cnd > 0: alpha = 1 / else: beta = 2.5 / while True: while cnd < 3: gamma = 1; delta = "s"
-   hoists alpha, beta (globals) and gamma, delta (locals of loop) and is inside the guard *)
+   hoists alpha, beta and gamma, delta (all sketch globals: the latter two out of a while inside the main loop) and is inside the guard *)
 Definition guarded_prog : list item :=
   [ IStmt (SAssign n_cnd 0);
     IStmt (SIf [] [[SAssign n_a 0]; [SAssign n_b 1]]);
@@ -671,9 +685,8 @@ Definition guarded_prog : list item :=
 
 Lemma guarded_prog_ok :
   o_ok (transl_with (fun _ => sid) guarded_prog) = true /\
-  o_globals (transl_with (fun _ => sid) guarded_prog) = [(n_cnd, 0); (n_a, 0); (n_b, 1)] /\
-  o_loop (transl_with (fun _ => sid) guarded_prog) =
-    [NDecl n_c 0; NDecl n_d 3; NWhile [NAssign n_c; NAssign n_d]].
+  o_globals (transl_with (fun _ => sid) guarded_prog) = [(n_cnd, 0); (n_a, 0); (n_b, 1); (n_c, 0); (n_d, 3)] /\
+  o_loop (transl_with (fun _ => sid) guarded_prog) = [NWhile [NAssign n_c; NAssign n_d]].
 Proof. repeat split; vm_compute; reflexivity. Qed.
 
 Lemma witness_outside_guard : o_ok (transl_with (fun _ => sid) witness_prog) = false.
@@ -726,12 +739,23 @@ Section Ext.
   Lemma walk_block_ext' l c : walk_block P1 l c = walk_block P2 l c.
   Proof. apply walk_block_ext. apply Forall_forall. intros s _. apply walk_stmt_ext. Qed.
 
+  Lemma walk_stmt_main_ext s c : walk_stmt_main P1 s c = walk_stmt_main P2 s c.
+  Proof.
+    destruct s; cbn [walk_stmt_main]; try (apply walk_stmt_ext).
+    destruct (tmem x (declared c)); [apply walk_stmt_ext|reflexivity].
+  Qed.
+
+  Lemma walk_main_ext l : forall c, walk_main P1 l c = walk_main P2 l c.
+  Proof.
+    induction l as [|s r IH]; intro c; [reflexivity|]. cbn [walk_main]. rewrite (walk_stmt_main_ext s c), IH. reflexivity.
+  Qed.
+
   Lemma walk_item_ext st it : walk_item P1 st it = walk_item P2 st it.
   Proof.
     destruct it as [s|f body|body]; cbn [walk_item].
     - rewrite (walk_stmt_ext s). reflexivity.
     - rewrite (walk_block_ext' body). reflexivity.
-    - rewrite (walk_block_ext' body). reflexivity.
+    - rewrite (walk_main_ext body). reflexivity.
   Qed.
 
   Lemma walk_prog_ext p : walk_prog P1 p = walk_prog P2 p.
@@ -830,11 +854,12 @@ Lemma open_prog_ok :
   o_ok (transl (fun _ => srev) open_prog) = false /\
   transl (fun _ => sid) open_prog = transl (fun _ => srev) open_prog /\
   o_funs (transl (fun _ => srev) open_prog) =
-    [(txt "fn"%string, [NDecl n_a 0; NDecl n_e 1; NDecl n_b 2; NDecl n_d 3;
+    [(txt "fn"%string, [NHoist n_a 0; NHoist n_e 1; NHoist n_b 2; NHoist n_d 3;
                         NIf [[NAssign n_e; NAssign n_a]; [NAssign n_d; NAssign n_a; NAssign n_b]]])] /\
   o_loop (transl (fun _ => srev) open_prog) =
-    [NDecl n_b 3; NDecl n_c 1; NTry [[NAssign n_cnd]; [NAssign n_c; NAssign n_b]]].
-Proof. split; [|split; [|split]]; vm_compute; reflexivity. Qed.
+    [NTry [[NAssign n_cnd]; [NAssign n_c; NAssign n_b]]] /\
+  o_globals (transl (fun _ => srev) open_prog) = [(n_cnd, 0); (n_b, 3); (n_c, 1)].
+Proof. split; [|split; [|split; [|split]]]; vm_compute; reflexivity. Qed.
 
 (* a branch may declare two new names when an earlier branch has already recorded one of them *)
 Definition guarded_prog2 : list item :=
@@ -844,7 +869,7 @@ Definition guarded_prog2 : list item :=
 Lemma guarded_prog2_ok :
   o_ok (transl_with (fun _ => sid) guarded_prog2) = true /\
   o_funs (transl_with (fun _ => srev) guarded_prog2) =
-    [(txt "fn"%string, [NDecl n_a 0; NDecl n_b 1; NIf [[NAssign n_a]; [NAssign n_b; NAssign n_a]]])].
+    [(txt "fn"%string, [NHoist n_a 0; NHoist n_b 1; NIf [[NAssign n_a]; [NAssign n_b; NAssign n_a]]])].
 Proof. split; vm_compute; reflexivity. Qed.
 
 (* ================================================================ the rank oracles reach every order *)
@@ -940,7 +965,7 @@ Qed.
 
 (* ================================================================ the loop sites never matter in the fragment *)
 Lemma decl_names_of_decls (ds : list decl) :
-  flat_map decl_names (map (fun d => NDecl (fst d) (snd d)) ds) = map fst ds.
+  flat_map decl_names (map (fun d => NHoist (fst d) (snd d)) ds) = map fst ds.
 Proof. induction ds as [|d r IH]; cbn; [reflexivity|]. rewrite IH. reflexivity. Qed.
 
 Lemma finish_declares P base o c inner mk x :
